@@ -2,8 +2,8 @@
     Property theorems only: statements in full, each closed by lemmas proved in Saem/MStepProofs.v (model)
     and Saem/MStepTie.v (regenerated rules = model). *)
 From Coq Require Import ZArith QArith Qreals Reals Bool List.
-From Leaspy Require Import Base.QAux Saem.MStep Saem.MStepProofs Saem.MStepTie.
-From LeaspyGen Require Import GenC04.
+From Leaspy Require Import Base.QAux Saem.MStep Saem.MStepProofs Saem.MStepTie Saem.Resp Saem.RespProofs Saem.RespTie.
+From LeaspyGen Require Import GenC04 GenC04Resp.
 Import ListNotations.
 Local Open Scope Q_scope.
 
@@ -258,3 +258,165 @@ Print Assumptions C04_tie_update_trace.
 Theorem C04_tie_mix_std_unguarded : gen_mix_std_guarded = false /\ gen_mix_std_burn_guarded = false.
 Proof. exact tie_mix_std_unguarded. Qed.
 Print Assumptions C04_tie_mix_std_unguarded.
+
+(** * Extension: the cluster RESPONSIBILITIES inside the model (Saem/Resp.v, RespProofs.v, RespTie.v). *)
+Local Close Scope Q_scope.
+Local Open Scope R_scope.
+
+(** ** Each row of responsibilities — softmax over clusters of the per-cluster terms negated and clamped at -100 — is a
+    probability vector with strictly positive entries, whatever the (finite) terms. *)
+Theorem C04_resp_row_probability : forall terms : list R,
+  terms <> [] ->
+  length (resp_row terms) = length terms /\ Forall (fun p => 0 < p <= 1) (resp_row terms) /\ sumR (resp_row terms) = 1.
+Proof. exact resp_row_prob_vector. Qed.
+Print Assumptions C04_resp_row_probability.
+
+(** what the clamp buys: when no cluster's log-density [-t] exceeds [U], every responsibility is at least
+    [exp (-100 - U) / n_clusters], however unlikely the other clusters are *)
+Theorem C04_resp_floor : forall (terms : list R) (U : R),
+  terms <> [] -> clamp_min <= U -> Forall (fun t => - t <= U) terms ->
+  Forall (fun p => exp (clamp_min - U) / lenR terms <= p) (resp_row terms).
+Proof. exact resp_row_floor. Qed.
+Print Assumptions C04_resp_floor.
+
+Theorem C04_resp_example :
+  resp_row [0; 0] = [1 / 2; 1 / 2] /\ prob_vector 2 (resp_row [0; 0]) /\
+  Forall (fun p => exp (clamp_min - 0) / lenR [0; 800] <= p) (resp_row [0; 800]).
+Proof. exact resp_example. Qed.
+Print Assumptions C04_resp_example.
+
+(** ** Tie: the expression each of the five softmax sites of the running code is fed, the axis it normalises over, and
+    the row-wise reading of the traced expression *)
+Theorem C04_tie_resp :
+  (forall t : R, gen_resp_logit_probs t = logit t /\ gen_resp_logit_mean t = logit t /\ gen_resp_logit_mean_src t = logit t /\
+  gen_resp_logit_std t = logit t /\ gen_resp_logit_std_burn t = logit t) /\
+  gen_resp_softmax_axes = [AxCluster; AxCluster; AxCluster; AxCluster; AxCluster] /\
+  (forall terms : list R,
+     map (fun a => exp a / sumR (map exp (map gen_resp_logit_probs terms))) (map gen_resp_logit_probs terms) = resp_row terms).
+Proof. split; [exact tie_resp_logit | split; [exact tie_resp_axes | exact tie_resp_row]]. Qed.
+Print Assumptions C04_tie_resp.
+
+(** the traced mixture rules are the model's: probs = column sums / number of individuals; the mean (and its `sources`
+    branch) = sum of r * x over the sum of r; the std rules average r * s with s constant over individuals, s = the bare
+    square root of the plain rule's variance around the cluster's old mean (no guard) or the Bessel std of the state values *)
+Theorem C04_tie_mixture_rules :
+  (forall (nc : nat) (Rm : list (list R)),
+     probs_updateR nc Rm = map (fun c => gen_probs_rule (sumR (colR c Rm)) (lenR Rm)) (seq 0 nc)) /\
+  (forall w x : list R, sumR w <> 0 ->
+     wmeanR w x = Ok (gen_mix_mean_rule (sumR (map (fun p => gen_mix_mean_summand (fst p) (snd p)) (combine w x))) (sumR w)) /\
+  wmeanR w x = Ok (gen_mix_mean_src_rule (sumR (map (fun p => gen_mix_mean_src_summand (fst p) (snd p)) (combine w x))) (sumR w))) /\
+  (forall (r : R) (old_mean : Q) (S1 S2 : list Q),
+     gen_mix_std_summand r (Q2R old_mean) (Q2R (mean S1)) (Q2R (mean S2)) = r * sqrt (Q2R (ind_var_saem old_mean S1 S2))) /\
+  (forall (w : list R) (s : R), sumR w <> 0 ->
+     gen_mix_std_rule (sumR (map (fun r => r * s) w)) (sumR w) = s /\
+  gen_mix_std_burn_rule (sumR (map (fun r => gen_mix_std_burn_summand r s) w)) (sumR w) = s) /\
+  gen_mix_std_burn_correction = gen_burn_in_correction.
+Proof.
+  split; [exact tie_probs_rule|]. split; [exact tie_mix_mean|]. split; [exact tie_mix_std_summand|].
+  split; [exact tie_mix_std_rule | exact tie_mix_std_burn_correction].
+Qed.
+Print Assumptions C04_tie_mixture_rules.
+
+(** ** [probs] computed from ANY finite per-cluster terms is a probability vector (the mean of the responsibilities). *)
+Theorem C04_probs_from_terms : forall (nc : nat) (T : list (list R)),
+  (0 < nc)%nat -> T <> [] -> Forall (fun row => length row = nc) T ->
+  mix_probs nc T = probs_updateR nc (resp T) /\
+  length (mix_probs nc T) = nc /\ Forall (fun p => 0 < p <= 1) (mix_probs nc T) /\ sumR (mix_probs nc T) = 1.
+Proof. intros nc T H1 H2 H3. split; [reflexivity | now apply mix_probs_spec]. Qed.
+Print Assumptions C04_probs_from_terms.
+
+(** ** No cluster is ever empty (over the reals): the mixture mean is always defined — the hypothesis [~ sumQ w == 0] of
+    C04_mixture_mean is met by every matrix of responsibilities — and the weights of the std rules always cancel. *)
+Theorem C04_mixture_never_empty : forall (nc : nat) (T : list (list R)) (c : nat) (x : list R) (s : R),
+  (c < nc)%nat -> T <> [] -> Forall (fun row => length row = nc) T ->
+  0 < sumR (colR c (resp T)) /\
+  mix_mean c T x = Ok (dotR (colR c (resp T)) x / sumR (colR c (resp T))) /\
+  sumR (map (fun r => r * s) (colR c (resp T))) / sumR (colR c (resp T)) = s.
+Proof.
+  intros nc T c x s H1 H2 H3. split; [now apply (resp_col_pos nc)|].
+  split; [now apply (mix_mean_defined nc) | now apply (mix_std_spread_resp nc)].
+Qed.
+Print Assumptions C04_mixture_never_empty.
+
+(** ** ONE cluster: every responsibility is 1, [probs = [1]], the mixture mean rule is the plain mean rule
+    ([ind_mean_rule], C04_mean) and the std rule returns its [s] (the plain rule's value, C04_mixture_std_partial). *)
+Theorem C04_one_cluster_reduces : forall (ts : list R) (xq : list Q) (s : R),
+  ts <> [] -> length ts = length xq ->
+  let T := map (fun t => [t]) ts in
+  resp T = map (fun _ => [1]) ts /\
+  mix_probs 1 T = [1] /\
+  mix_mean 0 T (map Q2R xq) = res_map Q2R (ind_mean_rule xq) /\
+  sumR (map (fun r => r * s) (colR 0 (resp T))) / sumR (colR 0 (resp T)) = s.
+Proof. exact one_cluster_rules. Qed.
+Print Assumptions C04_one_cluster_reduces.
+
+Theorem C04_one_cluster_example :
+  mix_probs 1 [[3]; [5]] = [1] /\ mix_mean 0 [[3]; [5]] (map Q2R [1%Q; 2%Q]) = res_map Q2R (ind_mean_rule [1%Q; 2%Q]).
+Proof. exact one_cluster_example. Qed.
+Print Assumptions C04_one_cluster_example.
+
+(** ** The mixture mean is the closed-form maximiser: [dwss] is the derivative of the responsibility-weighted sum of
+    squares, it vanishes exactly at the weighted mean, that point is the (unique) minimum, hence the maximum in the mean of
+    the weighted Gaussian log-likelihood for every std; and [wmeanR] returns it. *)
+Theorem C04_mixture_mean_is_maximiser : forall w x : list R,
+  (forall m, derivable_pt_lim (wss w x) m (dwss w x m)) /\
+  (sumw w x <> 0 -> forall m, dwss w x m = 0 <-> m = dotR w x / sumw w x) /\
+  (0 < sumw w x -> forall m,
+     wss w x (dotR w x / sumw w x) <= wss w x m /\ (wss w x m = wss w x (dotR w x / sumw w x) -> m = dotR w x / sumw w x)) /\
+  (length w = length x -> 0 < sumR w ->
+   exists v, wmeanR w x = Ok v /\ v = dotR w x / sumw w x /\ dwss w x v = 0 /\
+             (forall m, wss w x v <= wss w x m) /\ (forall m s, 0 < s -> wloglik w x m s <= wloglik w x v s)).
+Proof.
+  intros w x. split; [intros m; apply dwss_is_derivative|]. split; [intros H m; now apply wss_foc|].
+  split; [intros H m; now apply wss_min | apply wmeanR_is_maximiser].
+Qed.
+Print Assumptions C04_mixture_mean_is_maximiser.
+
+Theorem C04_mixture_mean_maximiser_example :
+  wmeanR [3 / 4; 1 / 4] [0; 1] = Ok (((3 / 4) * 0 + ((1 / 4) * 1 + 0)) / (3 / 4 + (1 / 4 + 0))) /\
+  dwss [3 / 4; 1 / 4] [0; 1] (1 / 4) = 0 /\ dwss [3 / 4; 1 / 4] [0; 1] (1 / 2) <> 0.
+Proof. exact maximiser_example. Qed.
+Print Assumptions C04_mixture_mean_maximiser_example.
+
+(** ** PARTIAL (std): the maximiser in the std of the same log-likelihood is the square root of the responsibility-WEIGHTED
+    dispersion [wvar]; the code's rule stores the UNWEIGHTED dispersion (C04_mixture_std_collapse: the weights cancel).  The
+    two coincide when the responsibilities of the cluster are all equal (in particular with one cluster); otherwise not. *)
+Theorem C04_mixture_std_weighted_partial :
+  (forall (w x : list R) (m s : R), 0 < s -> 0 < sumw w x -> 0 < wss w x m ->
+     wloglik w x m s <= wloglik w x m (sqrt (wvar w x m))) /\
+  (forall (a : R) (ts x : list R) (m : R), a <> 0 -> ts <> [] -> length ts = length x ->
+     wvar (map (fun _ => a) ts) x m = sumR (map (fun b => (b - m) * (b - m)) x) / lenR x) /\
+  (wvar [3 / 4; 1 / 4] [0; 1] 0 = 1 / 4 /\ sumR (map (fun b => (b - 0) * (b - 0)) [0; 1]) / lenR [0; 1] = 1 / 2).
+Proof. split; [exact wloglik_std_max | split; [exact mix_std_is_weighted_dispersion_partial | exact mix_std_not_weighted_dispersion]]. Qed.
+Print Assumptions C04_mixture_std_weighted_partial.
+
+(** ** The real-valued mean rule is the rational rule of C04_mixture_mean on rational weights (nothing is forked). *)
+Theorem C04_mixture_rules_on_rationals : forall w x : list Q,
+  wmeanR (map Q2R w) (map Q2R x) = res_map Q2R (wmean w x).
+Proof. exact wmeanR_Q2R. Qed.
+Print Assumptions C04_mixture_rules_on_rationals.
+
+(** ** Non-finite per-cluster terms and statistics, where the code's behaviour is determinate: a row of responsibilities exists
+    iff no term is -inf / nan (a +inf term is absorbed by the clamp) and is then a probability vector; finite terms give
+    [resp_row]; the [probs] / mean updates are nan in every entry iff some individual has a -inf / nan term — no mixture rule
+    raises; [compute_std_from_variance] RETURNS nan and +inf, raises on -inf and below the threshold. *)
+Theorem C04_nonfinite_terms :
+  (forall ts : list xr,
+     ((exists r, xresp_row ts = Some r) <-> Forall (fun t => t <> NInf /\ t <> NaN) ts) /\
+     (forall r, ts <> [] -> xresp_row ts = Some r -> prob_vector (length ts) r)) /\
+  (forall ts : list R, xresp_row (map Fin ts) = Some (resp_row ts)) /\
+  (forall (nc : nat) (T : list (list xr)),
+     (xmix_probs nc T = None <-> exists row, In row T /\ exists t, In t row /\ (t = NInf \/ t = NaN)) /\
+     (forall x c, xmix_mean c T x = None <-> xmix_probs nc T = None)) /\
+  (forall tol : Q,
+     xguard tol NaNQ = Returns NaNQ /\ xguard tol PInfQ = Returns PInfQ /\ xguard tol NInfQ = Raises /\
+     (forall q, xguard tol (FinQ q) = if Qlt_bool q tol then Raises else Returns (FinQ q))).
+Proof. split; [exact xresp_row_spec | split; [exact xresp_row_fin | split; [exact xmix_probs_spec | exact xguard_spec]]]. Qed.
+Print Assumptions C04_nonfinite_terms.
+
+Theorem C04_nonfinite_example :
+  (exists r, xresp_row [Fin 0; PInf] = Some r /\ prob_vector 2 r) /\
+  xresp_row [Fin 0; NInf] = None /\ xresp_row [Fin 0; NaN] = None /\
+  xmix_probs 2 [[Fin 0; Fin 1]; [Fin 0; NaN]] = None /\ (exists p, xmix_probs 2 [[Fin 0; Fin 1]; [Fin 0; PInf]] = Some p).
+Proof. exact nonfinite_example. Qed.
+Print Assumptions C04_nonfinite_example.
